@@ -63,8 +63,8 @@ def mergeSaveFirst (f : Plan) : Bool := !f .mergeThread && !f .endMergePurge && 
 def SafeStep (s : St) (f : Plan) (c : Call) : Prop :=
   ∀ w, s.writer = some w → w.killed = false → w.active ≠ s.metaSegs → c = .merge → mergeSaveFirst f = false
 
-theorem J_call (sy : Bool) (cap : Nat) (f : Plan) (s : St) (c : Call) (hj : J sy s)
-    (hsafe : SafeStep s f c) : J sy (call sy cap f s c).1 := by
+theorem J_call (sy : Bool) (fx : Fixes) (cap : Nat) (f : Plan) (s : St) (c : Call) (hj : J sy s)
+    (hsafe : SafeStep s f c) : J sy (call sy fx cap f s c).1 := by
   obtain ⟨hm, hw⟩ := hj
   cases c with
   | newWriter =>
@@ -98,7 +98,14 @@ theorem J_call (sy : Bool) (cap : Nat) (f : Plan) (s : St) (c : Call) (hj : J sy
           · exact J_install _ hm hc hu ha hk
         · split
           · exact J_newFiles_install (bombed w d) hm hc hu ha hk
-          · exact J_install _ hm hc hu ha hk
+          · split
+            · refine ⟨segsHaveFiles_cons _ hm, segsHaveFiles_cons _ hc, ?_, segsHaveFiles_cons _ ha, hk⟩
+              apply segsHaveFiles_append (segsHaveFiles_cons _ hu)
+              intro g hg
+              simp only [List.mem_singleton] at hg
+              subst hg
+              simp [newFiles]
+            · exact J_install _ hm hc hu ha hk
   | commit =>
     simp only [call]
     cases hs : s.writer with
@@ -137,7 +144,9 @@ theorem J_call (sy : Bool) (cap : Nat) (f : Plan) (s : St) (c : Call) (hj : J sy
       split
       · exact J_install { w with killed := true } hm hc hu ha (by simp)
       · split
-        · exact J_install (markErr { w with guard := false, killed := true }) hm hc hu ha (by simp [markErr])
+        · split
+          · exact J_install (markErr { w with killed := true }) hm hc hu ha (by simp [markErr])
+          · exact J_install (markErr { w with guard := false, killed := true }) hm hc hu ha (by simp [markErr])
         · exact J_install (freshWriter s) hm hm (by intro g hg; simp [freshWriter] at hg) hm (fun _ => Or.inl rfl)
   | dropWriter =>
     simp only [call]
@@ -236,28 +245,28 @@ theorem safeStep_of_nosync {s : St} (hj : J false s) (f : Plan) (c : Call) : Saf
   · cases h
 
 /-- the proviso along a run -/
-def Safe (sy : Bool) (cap : Nat) (F : Nat → Plan) : Nat → St → List Call → Prop
+def Safe (sy : Bool) (fx : Fixes) (cap : Nat) (F : Nat → Plan) : Nat → St → List Call → Prop
   | _, _, [] => True
-  | i, s, c :: cs => SafeStep s (F i) c ∧ Safe sy cap F (i + 1) (call sy cap (F i) s c).1 cs
+  | i, s, c :: cs => SafeStep s (F i) c ∧ Safe sy fx cap F (i + 1) (call sy fx cap (F i) s c).1 cs
 
-theorem J_run (sy : Bool) (cap : Nat) (F : Nat → Plan) (i : Nat) (s : St) (cs : List Call) (h : J sy s)
-    (hs : Safe sy cap F i s cs) : J sy (run sy cap F i s cs).1 := by
+theorem J_run (sy : Bool) (fx : Fixes) (cap : Nat) (F : Nat → Plan) (i : Nat) (s : St) (cs : List Call) (h : J sy s)
+    (hs : Safe sy fx cap F i s cs) : J sy (run sy fx cap F i s cs).1 := by
   induction cs generalizing i s with
   | nil => exact h
   | cons c cs ih =>
     rw [run_cons]
-    exact ih (i + 1) _ (J_call sy cap (F i) s c h hs.1) hs.2
+    exact ih (i + 1) _ (J_call sy fx cap (F i) s c h hs.1) hs.2
 
-theorem safe_of_nosync (cap : Nat) (F : Nat → Plan) (i : Nat) (s : St) (cs : List Call) (h : J false s) :
-    Safe false cap F i s cs := by
+theorem safe_of_nosync (fx : Fixes) (cap : Nat) (F : Nat → Plan) (i : Nat) (s : St) (cs : List Call) (h : J false s) :
+    Safe false fx cap F i s cs := by
   induction cs generalizing i s with
   | nil => trivial
   | cons c cs ih =>
     have hs := safeStep_of_nosync h (F i) c
-    exact ⟨hs, ih (i + 1) _ (J_call false cap (F i) s c h hs)⟩
+    exact ⟨hs, ih (i + 1) _ (J_call false fx cap (F i) s c h hs)⟩
 
-theorem J_run_nosync (cap : Nat) (F : Nat → Plan) (i : Nat) (s : St) (cs : List Call) (h : J false s) :
-    J false (run false cap F i s cs).1 :=
-  J_run false cap F i s cs h (safe_of_nosync cap F i s cs h)
+theorem J_run_nosync (fx : Fixes) (cap : Nat) (F : Nat → Plan) (i : Nat) (s : St) (cs : List Call) (h : J false s) :
+    J false (run false fx cap F i s cs).1 :=
+  J_run false fx cap F i s cs h (safe_of_nosync fx cap F i s cs h)
 
 end TantivyModel.Faults
